@@ -24,7 +24,7 @@ let () = each_line (fun l ->
       if not ok then fails := names.(i) :: !fails) vs;
     if not (prepared_lang a b sa sb) then fails := "sanitize_lang" :: !fails;
     if not (ta_same a ia && ta_same b ib) then fails := "operand_changed" :: !fails;
-    let drift = if prepared_shape sa sb n then [] else ["sanitize_shape"] in
+    let drift = (if prepared_shape sa sb n then [] else ["sanitize_shape"]) @ (if up_ac a b = truth then [] else ["antichain_model"]) in
     (if !fails = [] then "OK" else "FAIL " ^ String.concat "," (List.rev !fails))
     ^ (if drift = [] then "" else " DRIFT " ^ String.concat "," drift)
     ^ (if truth then " included" else " notincluded")
